@@ -18,7 +18,8 @@ from . import meshgen as mg
 
 PROP = 'C08'
 LEAN_MODULES = ['Femio.Props.C08']
-THEOREMS = ['C08_inv_init', 'C08_inv', 'C08_reachable', 'C08_views_agree', 'C08_filter_with_ids', 'C08_mixed_once_sorted',
+THEOREMS = ['C08_inv_init', 'C08_inv', 'C08_reachable', 'C08_views_agree', 'C08_filter_with_ids', 'C08_update_spec',
+            'C08_mixed_once_sorted',
             'C08_counterexample_loc_write', 'C08_counterexample_overwrite', 'C08_counterexample_update_index']
 PARTIAL = ['time-series and ragged (object) attributes: read paths are exercised by the oracle only, not modelled '
            '(update raises NotImplementedError for time series)',
